@@ -261,6 +261,9 @@ def expand(item):
 
 
 def replay(case):
+    if case.get("scale") == "failed-attach":
+        a = scale_work(("failed-attach", None))
+        return [p for ps in a.problems.values() for p in ps if core.jsonable(p["case"]) == core.jsonable(case)]
     try:
         nodes, model = replay_history(case["config"]["k"], case["history"], case["config"].get("unborn", False))
     except PrefixFailed as e:
@@ -295,6 +298,47 @@ def scale_work(item):
                         replay_history(4, history)
                     except PrefixFailed as e:
                         acc.add_problems([dict(p_, case=dict(p_["case"], scale="many-prefixes")) for p_ in e.probs])
+    elif kind == "failed-attach":
+        # an attach that fails (the index is not a number) is not an attach: no binding, no parent link, no child list changes
+        for decl_p in ([], [["p", "u1"]], [["p", "u1"], ["q", "u2"]]):
+            for decl_c in ([], [["p", "u2"]], [["q", "u1"]]):
+                for with_gc in (False, True):
+                    for bad_index in ("0", 1.5, [0]):
+                        nodes = build(4)
+                        nodes[0].add_child(nodes[3])
+                        for pf, u in decl_p:
+                            nodes[0].add_namespace(pf, u)
+                        for pf, u in decl_c:
+                            nodes[1].add_namespace(pf, u)
+                        if with_gc:
+                            nodes[1].add_child(nodes[2])
+                        before = (values(nodes), [[id(c) for c in x.children] for x in nodes], [id(x.parent) if x.parent is not None else None for x in nodes])
+                        case = {"scale": "failed-attach", "parent_declares": decl_p, "child_declares": decl_c, "with_grandchild": with_gc,
+                                "index": repr(bad_index)}
+                        n += 1
+                        try:
+                            nodes[0].add_child(nodes[1], bad_index)
+                            continue            # (accepted after all: nothing to demand here)
+                        except Exception:  # noqa
+                            pass
+                        after = (values(nodes), [[id(c) for c in x.children] for x in nodes], [id(x.parent) if x.parent is not None else None for x in nodes])
+                        if after != before:
+                            what = "bindings" if after[0] != before[0] else ("child lists" if after[1] != before[1] else "parent links")
+                            acc.add_problem(problem("frame_violated", case, expected="a failed attach leaves everything as it was",
+                                                    observed={"changed": what, "bindings_after": after[0]}, op="attach!"))
+                            continue
+                        # ... and the node can then be attached elsewhere with the usual result
+                        nodes[3].add_namespace("p", "u9")
+                        nodes[3].add_child(nodes[1])
+                        want = dict(decl_c)
+                        want.setdefault("p", "u9")
+                        for pf, u in decl_p:
+                            if pf not in want and pf in nodes[3].nsmap:
+                                want[pf] = nodes[3].nsmap[pf]
+                        exp_child = dict(nodes[3].nsmap)
+                        exp_child.update(dict(decl_c))
+                        if dict(nodes[1].nsmap) != exp_child:
+                            acc.add_problem(problem("binding_mismatch", case, expected=exp_child, observed=dict(nodes[1].nsmap), op="attach-after-failed-attach"))
     else:
         depth = payload
         history = [["attach", i, i + 1, None] for i in range(depth - 1)]
@@ -310,7 +354,7 @@ def scale_work(item):
 
 
 def scale_items():
-    return [("many-prefixes", k) for k in range(7)] + [("deep", d) for d in (26, 30, 64)]
+    return [("many-prefixes", k) for k in range(7)] + [("deep", d) for d in (26, 30, 64)] + [("failed-attach", None)]
 
 
 RUNS = {
